@@ -118,6 +118,7 @@ Qed.
 
 Section WithT.
 Context {T : Type}.
+Context (tp : ustring -> bool).   (* syn's verdict "is a type path"; arbitrary *)
 Implicit Types (e : extension T) (x : ext_parse T).
 
 Lemma collect_spec : forall (l : list (option T)) ids, collect l = Some ids <-> l = map Some ids.
@@ -155,18 +156,20 @@ Definition substitutes (cs : crates) (pol : unknown_policy) x (p : ustring) (ps 
     x = ExtOk e (Some rq)
     /\ starts_with (dash_to_us (x_crate e)) (x_path e)
     /\ x_path e = dash_to_us (x_crate e) ++ sep ++ rest
+    /\ tp (x_path e) = true
     /\ x_params e = map Some ps
     /\ policy_allows cs pol (x_crate e) rq
     /\ p = sep ++ head_segment cs (x_crate e) ++ sep ++ rest.
 
 Lemma decide_use_iff : forall cs pol x p ps,
-  decide cs pol x = Use p ps <-> substitutes cs pol x p ps.
+  decide tp cs pol x = Use p ps <-> substitutes cs pol x p ps.
 Proof.
   intros cs pol x p ps. split.
   - intro Hd. destruct x as [| |e [rq|]]; try discriminate.
     unfold decide in Hd.
     destruct (find_sep (x_path e)) as [k|] eqn:Ek; [|discriminate].
     destruct (ustr_eqb (dash_to_us (x_crate e)) (firstn k (x_path e))) eqn:Ee; cbn [negb] in Hd; [|discriminate].
+    destruct (tp (x_path e)) eqn:Etp; cbn [negb] in Hd; [|discriminate].
     assert (Hsw : starts_with (dash_to_us (x_crate e)) (x_path e)).
     { apply prefix_test. exists k. now split. }
     destruct (starts_with_find _ _ Hsw) as [Hk' [rest [Hp Hskip]]].
@@ -193,7 +196,7 @@ Proof.
       repeat split; try assumption.
       * right. right. now split.
       * now rewrite Hp at 1.
-  - intros [e [rq [rest [-> [Hsw [Hp [Hps [Hpol ->]]]]]]]].
+  - intros [e [rq [rest [-> [Hsw [Hp [Htp [Hps [Hpol ->]]]]]]]]].
     destruct (starts_with_find _ _ Hsw) as [Hk [rest' [Hp' Hskip]]].
     assert (rest' = rest).
     { rewrite Hp in Hp'. apply app_inv_head in Hp'. apply app_inv_head in Hp'. now symmetry. }
@@ -202,7 +205,7 @@ Proof.
     unfold decide. rewrite Hk.
     replace (firstn (length (dash_to_us (x_crate e))) (x_path e)) with (dash_to_us (x_crate e))
       by (rewrite Hp; symmetry; apply firstn_app_exact).
-    rewrite ustr_eqb_refl. cbn [negb].
+    rewrite ustr_eqb_refl. cbn [negb]. rewrite Htp. cbn [negb].
     unfold head_segment.
     destruct Hpol as [[v [rn [El Hm]]] | [[rn El] | [El ->]]]; rewrite El; cbn [cs_version cs_rename].
     + rewrite Hm, Hps. destruct rn; [now rewrite Hskip | now rewrite Hp at 1].
@@ -211,23 +214,24 @@ Proof.
 Qed.
 
 Lemma decide_total : forall cs pol x,
-  decide cs pol x = Generate \/ exists p ps, decide cs pol x = Use p ps.
-Proof. intros. destruct (decide cs pol x); [right; eauto | now left]. Qed.
+  decide tp cs pol x = Generate \/ exists p ps, decide tp cs pol x = Use p ps.
+Proof. intros. destruct (decide tp cs pol x); [right; eauto | now left]. Qed.
 
 (* C13_decide_spec *)
 Theorem decide_spec : forall cs pol x,
-  (exists p ps, decide cs pol x = Use p ps) <->
+  (exists p ps, decide tp cs pol x = Use p ps) <->
   (exists e rq, x = ExtOk e (Some rq)
      /\ starts_with (dash_to_us (x_crate e)) (x_path e)
+     /\ tp (x_path e) = true
      /\ (forall q, In q (x_params e) -> q <> None)
      /\ policy_allows cs pol (x_crate e) rq).
 Proof.
   intros cs pol x. split.
   - intros [p [ps Hd]]. apply decide_use_iff in Hd.
-    destruct Hd as [e [rq [rest [Hx [Hsw [_ [Hps [Hpol _]]]]]]]].
+    destruct Hd as [e [rq [rest [Hx [Hsw [_ [Htp [Hps [Hpol _]]]]]]]]].
     exists e, rq. repeat split; try assumption.
     intros q Hq. rewrite Hps in Hq. apply in_map_iff in Hq. destruct Hq as [t [<- _]]. discriminate.
-  - intros [e [rq [Hx [Hsw [Hps Hpol]]]]].
+  - intros [e [rq [Hx [Hsw [Htp [Hps Hpol]]]]]].
     assert (Hc : exists ps, x_params e = map Some ps).
     { clear - Hps. induction (x_params e) as [|o l IH].
       - now exists [].
@@ -241,9 +245,10 @@ Proof.
 Qed.
 
 Theorem decide_generate_iff : forall cs pol x,
-  decide cs pol x = Generate <->
+  decide tp cs pol x = Generate <->
   ~ (exists e rq, x = ExtOk e (Some rq)
        /\ starts_with (dash_to_us (x_crate e)) (x_path e)
+       /\ tp (x_path e) = true
        /\ (forall q, In q (x_params e) -> q <> None)
        /\ policy_allows cs pol (x_crate e) rq).
 Proof.
@@ -254,51 +259,60 @@ Qed.
 
 (* the "generated when" clauses *)
 Theorem never_generates : forall cs pol e r rn,
-  lookup cs (x_crate e) = Some (CS CVNever rn) -> decide cs pol (ExtOk e r) = Generate.
+  lookup cs (x_crate e) = Some (CS CVNever rn) -> decide tp cs pol (ExtOk e r) = Generate.
 Proof.
   intros cs pol e r rn El. apply decide_generate_iff.
-  intros [e' [rq [Hx [_ [_ Hpol]]]]]. injection Hx as <- _.
+  intros [e' [rq [Hx [_ [_ [_ Hpol]]]]]]. injection Hx as <- _.
   destruct Hpol as [[v [rn' [El' _]]] | [[rn' El'] | [El' _]]]; rewrite El in El'; discriminate.
 Qed.
 
 Theorem mismatch_generates : forall cs pol e rq v rn,
   lookup cs (x_crate e) = Some (CS (CVVersion v) rn) -> matches_req rq v = false ->
-  decide cs pol (ExtOk e (Some rq)) = Generate.
+  decide tp cs pol (ExtOk e (Some rq)) = Generate.
 Proof.
   intros cs pol e rq v rn El Hm. apply decide_generate_iff.
-  intros [e' [rq' [Hx [_ [_ Hpol]]]]]. injection Hx as <- <-.
+  intros [e' [rq' [Hx [_ [_ [_ Hpol]]]]]]. injection Hx as <- <-.
   destruct Hpol as [[v' [rn' [El' Hm']]] | [[rn' El'] | [El' _]]]; rewrite El in El'; try discriminate.
   injection El' as <- _. rewrite Hm in Hm'. discriminate.
 Qed.
 
 Theorem unconfigured_generate_or_deny_generates : forall cs pol e r,
-  lookup cs (x_crate e) = None -> pol <> PAllow -> decide cs pol (ExtOk e r) = Generate.
+  lookup cs (x_crate e) = None -> pol <> PAllow -> decide tp cs pol (ExtOk e r) = Generate.
 Proof.
   intros cs pol e r El Hpol. apply decide_generate_iff.
-  intros [e' [rq [Hx [_ [_ Hp]]]]]. injection Hx as <- _.
+  intros [e' [rq [Hx [_ [_ [_ Hp]]]]]]. injection Hx as <- _.
   destruct Hp as [[v' [rn' [El' _]]] | [[rn' El'] | [_ Hp]]]; try (rewrite El in El'; discriminate).
   contradiction.
 Qed.
 
 Theorem malformed_generates : forall cs pol,
-  decide cs pol (@ExtAbsent T) = Generate
-  /\ decide cs pol (@ExtMalformed T) = Generate                              (* not a well-formed record *)
-  /\ (forall e, decide cs pol (ExtOk e None) = Generate)                (* bad requirement *)
-  /\ (forall e r, ~ starts_with (dash_to_us (x_crate e)) (x_path e) ->  (* path / crate mismatch *)
-        decide cs pol (ExtOk e r) = Generate)
+  decide tp cs pol (@ExtAbsent T) = Generate
+  /\ decide tp cs pol (@ExtMalformed T) = Generate                     (* not a well-formed record *)
+  /\ (forall e, decide tp cs pol (ExtOk e None) = Generate)             (* bad requirement *)
+  /\ (forall e r, ~ starts_with (dash_to_us (x_crate e)) (x_path e) -> (* path / crate mismatch *)
+        decide tp cs pol (ExtOk e r) = Generate)
+  /\ (forall e r, tp (x_path e) = false ->                              (* path is not a type path *)
+        decide tp cs pol (ExtOk e r) = Generate)
   /\ (forall e r, In None (x_params e) ->                               (* unconvertible parameter *)
-        decide cs pol (ExtOk e r) = Generate).
+        decide tp cs pol (ExtOk e r) = Generate).
 Proof.
   intros cs pol. repeat split; try reflexivity.
   - intros e r Hn. apply decide_generate_iff.
     intros [e' [rq [Hx [Hsw _]]]]. injection Hx as <- _. contradiction.
+  - intros e r Hn. apply decide_generate_iff.
+    intros [e' [rq [Hx [_ [Htp _]]]]]. injection Hx as <- _. rewrite Hn in Htp. discriminate.
   - intros e r Hin. apply decide_generate_iff.
-    intros [e' [rq [Hx [_ [Hps _]]]]]. injection Hx as <- _. now apply (Hps None Hin).
+    intros [e' [rq [Hx [_ [_ [Hps _]]]]]]. injection Hx as <- _. now apply (Hps None Hin).
 Qed.
+
+(* finding C13-F1 (fixed by 31fad76): a path that is not a type path is generated *)
+Theorem non_type_path_generates : forall cs pol e r,
+  tp (x_path e) = false -> decide tp cs pol (ExtOk e r) = Generate.
+Proof. intros cs pol e r. apply (malformed_generates cs pol). Qed.
 
 (* C13_decide_path *)
 Theorem decide_path : forall cs pol x p ps,
-  decide cs pol x = Use p ps ->
+  decide tp cs pol x = Use p ps ->
   exists e rq rest,
     x = ExtOk e (Some rq)
     /\ x_path e = dash_to_us (x_crate e) ++ sep ++ rest
@@ -307,7 +321,7 @@ Theorem decide_path : forall cs pol x p ps,
     /\ map Some ps = x_params e.
 Proof.
   intros cs pol x p ps Hd. apply decide_use_iff in Hd.
-  destruct Hd as [e [rq [rest [Hx [[rest' [_ Hmin]] [Hp [Hps [_ Hpp]]]]]]]].
+  destruct Hd as [e [rq [rest [Hx [[rest' [_ Hmin]] [Hp [_ [Hps [_ Hpp]]]]]]]]].
   exists e, rq, rest. repeat split; try assumption. now symmetry.
 Qed.
 
@@ -316,30 +330,31 @@ Theorem version_policy_is_cargo : forall cs pol e rq v rn,
   lookup cs (x_crate e) = Some (CS (CVVersion v) rn) ->
   forallb wf_comparator rq = true ->
   vpre v = [] \/ forallb is_full rq = true ->
-  ((exists p ps, decide cs pol (ExtOk e (Some rq)) = Use p ps) <->
+  ((exists p ps, decide tp cs pol (ExtOk e (Some rq)) = Use p ps) <->
    starts_with (dash_to_us (x_crate e)) (x_path e)
+   /\ tp (x_path e) = true
    /\ (forall q, In q (x_params e) -> q <> None)
    /\ sat_cargo rq v = true).
 Proof.
   intros cs pol e rq v rn El Hwf Hreg. rewrite decide_spec. rewrite <- (matches_is_cargo rq v Hwf Hreg).
   split.
-  - intros [e' [rq' [Hx [Hsw [Hps Hpol]]]]]. injection Hx as <- <-.
+  - intros [e' [rq' [Hx [Hsw [Htp [Hps Hpol]]]]]]. injection Hx as <- <-.
     repeat split; try assumption.
     destruct Hpol as [[v' [rn' [El' Hm]]] | [[rn' El'] | [El' _]]]; rewrite El in El'; try discriminate.
     now injection El' as <- _.
-  - intros [Hsw [Hps Hm]]. exists e, rq. repeat split; try assumption.
+  - intros [Hsw [Htp [Hps Hm]]]. exists e, rq. repeat split; try assumption.
     left. exists v, rn. now split.
 Qed.
 
 (* ------------------------------------------------- definitions, wrappers *)
 
 Theorem use_skips_structure : forall cs pol n x,
-  (convert_ref_def cs pol n x = DefStructural <-> decide cs pol x = Generate)
-  /\ (forall p ps, decide cs pol x = Use p ps ->
-        convert_ref_def cs pol n x = DefNative p ps \/ convert_ref_def cs pol n x = DefNewtype p ps).
+  (convert_ref_def tp cs pol n x = DefStructural <-> decide tp cs pol x = Generate)
+  /\ (forall p ps, decide tp cs pol x = Use p ps ->
+        convert_ref_def tp cs pol n x = DefNative p ps \/ convert_ref_def tp cs pol n x = DefNewtype p ps).
 Proof.
   intros cs pol n x. unfold convert_ref_def. split.
-  - destruct (decide cs pol x) as [p ps|]; [|tauto].
+  - destruct (decide tp cs pol x) as [p ps|]; [|tauto].
     destruct (name_match p ps n); split; intro H; discriminate.
   - intros p ps ->. destruct (name_match p ps n); [now left | now right].
 Qed.
@@ -358,10 +373,10 @@ Proof.
 Qed.
 
 Theorem wrapper_iff_names_differ : forall cs pol n x p ps,
-  decide cs pol x = Use p ps ->
-  (convert_ref_def cs pol n x = DefNewtype p ps <->
+  decide tp cs pol x = Use p ps ->
+  (convert_ref_def tp cs pol n x = DefNewtype p ps <->
      ps = [] /\ n <> NRequired (last_segment p))
-  /\ (convert_ref_def cs pol n x = DefNative p ps <->
+  /\ (convert_ref_def tp cs pol n x = DefNative p ps <->
      ps <> [] \/ n = NRequired (last_segment p)).
 Proof.
   intros cs pol n x p ps Hd. unfold convert_ref_def. rewrite Hd.
@@ -413,14 +428,4 @@ Proof.
     exfalso. apply (Hno (rev rest) (rev (firstn k (rev s)))).
     rewrite <- (rev_involutive s) at 1. rewrite H1 at 1.
     rewrite !rev_app_distr, rev_sep, <- app_assoc. reflexivity.
-Qed.
-
-(* finding C13-F1: a `path` that is not a path (README pattern) is still used *)
-Lemma unvalidated_path_witness :
-  exists (cs : crates) pol (e : extension unit) rq p ps,
-    readme_path_ok (x_path e) = false /\ decide cs pol (ExtOk e (Some rq)) = Use p ps.
-Proof.
-  exists [], PAllow, (X [117; 116; 105; 108] [117; 116; 105; 108; 58; 58] []), [],
-         [58; 58; 117; 116; 105; 108; 58; 58], [].
-  split; vm_compute; reflexivity.
 Qed.
